@@ -149,8 +149,9 @@ def opFsReq (args : List SExp) : Option OpResult := do
           [("C02", if faultRegion then "put-body-fault-existing-file" else s!"{r.method}-{resp.status}-changed-the-tree")] else []
         let c17 := if leak then [("C17", s!"host-path-in-{r.method}-{resp.status}-response")] else []
         -- C03, last clause: a request path or Destination that cannot be mapped below the root is refused with 4xx
+        -- (a Destination that is not even a URI reference names no path below the root either)
         let unmappable := (target r.path).isNone ||
-          ((r.method = "COPY" || r.method = "MOVE") && (match r.dest with | .path d => (target d).isNone | _ => false))
+          ((r.method = "COPY" || r.method = "MOVE") && (match r.dest with | .path d => (target d).isNone | .unparsable => true | .absent => false))
         let c03 := (if canary then [("C03", "outside-root-touched")] else []) ++
           (if unmappable && !(400 ≤ resp.status && resp.status < 500) then [("C03", s!"unmappable-path-answered-{resp.status}")] else [])
         -- C03, second clause: every href a PROPFIND reports maps back to a resource of the tree
